@@ -1,3 +1,4 @@
+import FastQr.Props.C05Tables
 import FastQr.Proofs.ParseSound
 import FastQr.Proofs.EncodeSound
 /-
